@@ -38,23 +38,26 @@ func c14Server(t *testing.T, dbPath string, n, hostLen int, gen uint64) (s *serv
 	return s
 }
 
+func c14Lease(i, hostLen int, gen uint64) *dhcpsvc.Lease {
+	host := fmt.Sprintf("h%d-g%d", i, gen)
+	for len(host) < hostLen {
+		lbl := strings.Repeat("x", min(50, hostLen-len(host)))
+		host += "." + lbl
+	}
+	ip := netip.AddrFrom4([4]byte{10, byte(i >> 16), byte(i >> 8), byte(i)}).Next().Next()
+	return &dhcpsvc.Lease{
+		Expiry:   time.Unix(1900000000+int64(i), 0),
+		Hostname: host,
+		HWAddr:   net.HardwareAddr{0x02, byte(gen), byte(i >> 24), byte(i >> 16), byte(i >> 8), byte(i)},
+		IP:       ip,
+		IsStatic: i%7 == 0,
+	}
+}
+
 func c14AddLeases(t *testing.T, s *server, from, n, hostLen int, gen uint64) {
 	srv4 := s.srv4.(*v4Server)
 	for i := from; i < from+n; i++ {
-		host := fmt.Sprintf("h%d-g%d", i, gen)
-		for len(host) < hostLen {
-			lbl := strings.Repeat("x", min(50, hostLen-len(host)))
-			host += "." + lbl
-		}
-		ip := netip.AddrFrom4([4]byte{10, byte(i >> 16), byte(i >> 8), byte(i)}).Next().Next()
-		l := &dhcpsvc.Lease{
-			Expiry:   time.Unix(1900000000+int64(i), 0),
-			Hostname: host,
-			HWAddr:   net.HardwareAddr{0x02, byte(gen), byte(i >> 24), byte(i >> 16), byte(i >> 8), byte(i)},
-			IP:       ip,
-			IsStatic: i%7 == 0,
-		}
-		if err := srv4.addLease(l); err != nil {
+		if err := srv4.addLease(c14Lease(i, hostLen, gen)); err != nil {
 			t.Fatalf("addLease %d: %v", i, err)
 		}
 	}
@@ -79,7 +82,44 @@ func c14Expected(t *testing.T, s *server) []byte {
 // c14Store is one dbStore with the intended content stated first.
 func c14Store(t *testing.T, c *verifc14.Case, label string, srv *server) {
 	c.Want(c14Expected(t, srv))
+	c.Kind = "writefile"
 	c.Save(label, srv.dbStore)
+}
+
+// c14ServerExact builds a server whose lease table serialises to EXACTLY size
+// bytes (size >= 400): numbered leases (h0-g.., h1-g..) with host names of
+// about 100 bytes, the last host name stretched or shortened to fit.
+func c14ServerExact(t *testing.T, dbPath string, size int, gen uint64) (s *server, n int) {
+	s = c14Server(t, dbPath, 0, 0, gen)
+	jsonLen := func(i, hostLen int) int {
+		b, err := json.Marshal(fromLease(c14Lease(i, hostLen, gen)))
+		if err != nil {
+			t.Fatal(err)
+		}
+		return len(b)
+	}
+	cur := len(c14Expected(t, s)) // the empty table
+	sep := func() int {
+		if n > 0 {
+			return 1
+		}
+		return 0
+	}
+	for cur+350 < size {
+		cur += jsonLen(n, 100) + sep()
+		c14AddLeases(t, s, n, 1, 100, gen)
+		n++
+	}
+	hl := 12 + (size - cur - sep() - jsonLen(n, 12))
+	if hl < 12 || hl > 250 {
+		t.Fatalf("c14ServerExact(%d): no host name length fits the last lease (%d)", size, hl)
+	}
+	c14AddLeases(t, s, n, 1, hl, gen)
+	n++
+	if got := len(c14Expected(t, s)); got != size {
+		t.Fatalf("c14ServerExact(%d): built %d bytes", size, got)
+	}
+	return s, n
 }
 
 func TestVerifC14(t *testing.T) {
@@ -90,6 +130,37 @@ func TestVerifC14(t *testing.T) {
 	r := vfNewRand(s.Seed)
 	n := 0
 	dir := func() string { n++; return s.Dir(fmt.Sprintf("d%d/data", n)) }
+
+	if s.Inject != "" {
+		// ---- every fsync (resp. every rename) of the process fails: dbStore must
+		// report the error and leave leases.json as it was (put there directly:
+		// no save can succeed in this run)
+		for i, present := range []bool{true, false, true} {
+			db := filepath.Join(dir(), dataFilename)
+			cls := []string{"dhcpd", "failed-save", "fail-" + s.Inject}
+			if present {
+				if err := os.WriteFile(db, []byte(`{"version":1,"leases":[]}`), 0o644); err != nil {
+					t.Fatal(err)
+				}
+				cls = append(cls, "dst-present")
+			} else {
+				cls = append(cls, "dst-absent")
+			}
+			if i == 2 {
+				s.TmpShared()
+				cls = append(cls, "tmp-in-tmpdir")
+			} else {
+				s.TmpInDstDir()
+				cls = append(cls, "tmp-in-dstdir")
+			}
+			s.Case(fmt.Sprintf("inject-%s-%d", s.Inject, i), db, nil, cls, func(c *verifc14.Case) {
+				srv := c14Server(t, db, 2+300*i, 30, uint64(70+i))
+				c.Kind = "writefile"
+				c.SaveInjected("dbStore", srv.dbStore)
+			})
+		}
+		return
+	}
 
 	// ---- prelude: one constructed representative per class
 	s.TmpInDstDir()
@@ -299,6 +370,54 @@ func TestVerifC14(t *testing.T) {
 			}
 			c.Want(want)
 			c.Save("migrateDB-retry", func() error { return migrateDB(&ServerConfig{WorkDir: work, DataDir: data}) })
+		})
+	}
+
+	// ---- creation of the temporary file fails (no descriptor to be had: EMFILE)
+	for i, present := range []bool{true, false} {
+		db := filepath.Join(dir(), dataFilename)
+		cls := []string{"dhcpd", "failed-save", "tmp-in-dstdir"}
+		if present {
+			if err := c14Server(t, db, 2, 6, uint64(80+i)).dbStore(); err != nil {
+				t.Fatal(err)
+			}
+			cls = append(cls, "dst-present")
+		} else {
+			cls = append(cls, "dst-absent")
+		}
+		s.Case(fmt.Sprintf("fail-open-%d", i), db, nil, cls, func(c *verifc14.Case) {
+			srv := c14Server(t, db, 3+40*i, 40, uint64(82+i))
+			c.Kind = "writefile"
+			c.SaveNoFile("dbStore-nofile", srv.dbStore)
+			c14Store(t, c, "dbStore-after-failure", srv)
+		})
+	}
+
+	// ---- exact content sizes (the lease table serialises to exactly this many
+	// bytes), replacing a small table: the file must be the whole serialisation
+	exact := []int{4095, 4096, 4097, 65535, 65536, 65537, 1600000}
+	if s.Tier == "thorough" {
+		exact = append(exact, 16<<20-1, 16<<20, 16<<20+1, 32<<20-1, 32<<20, 32<<20+1, 40<<20)
+	}
+	for _, sz := range exact {
+		db := filepath.Join(dir(), dataFilename)
+		if err := c14Server(t, db, 2, 6, 90).dbStore(); err != nil {
+			t.Fatal(err)
+		}
+		s.Case(fmt.Sprintf("exact-size-%d", sz), db, nil, []string{"dhcpd", "dst-present", "tmp-in-dstdir", "exact-size", fmt.Sprintf("size>=%dKiB", sz>>10)}, func(c *verifc14.Case) {
+			srv, cnt := c14ServerExact(t, db, sz, 91)
+			c.Info["leases"], c.Info["bytes"] = cnt, sz
+			c14Store(t, c, "dbStore-exact", srv)
+			// judged from the file alone: it parses, and holds every lease from h0 to the last
+			b, err := os.ReadFile(db)
+			var dl dataLeases
+			if err == nil {
+				err = json.Unmarshal(b, &dl)
+			}
+			if err != nil || len(b) != sz || len(dl.Leases) != cnt {
+				c.Fail("dbStore of %d leases (%d bytes) reported success but %s holds %d bytes, %d leases (%v): neither the previous nor the complete new version",
+					cnt, sz, dataFilename, len(b), len(dl.Leases), err)
+			}
 		})
 	}
 
